@@ -68,7 +68,8 @@ class P(vlib.Prop):
     ]
     rule = ("the REAL configopaque.String alone and inside 34 (thorough: 68) container shapes (pointer, exported / unexported "
             "struct field, slice, array, map value, map key, TWO colliding map keys, interface, nested up to depth 4; plus 4 (6) "
-            "oracle-only shapes with struct / array map keys for the encoders' error paths), each rendered with 10 adversarial "
+            "oracle-only shapes with struct / array map keys for the encoders' error paths; in harness B additionally 13 (20) shapes "
+            "with a struct implementing confmap.Marshaler that merges its typed content, nested in every way), each rendered with 10 adversarial "
             "secrets (two equal-length distinct ones, format directives, the marker itself, empty, unicode, quotes/escapes, "
             "config-syntax, invalid UTF-8, 4 KiB) through: fmt.Sprintf for the verbs v s q x X with ALL 32 flag sets "
             "(width/precision variants exhaustive on the 8 basic shapes, sampled elsewhere; thorough: exhaustive), every "
